@@ -10,6 +10,9 @@ type (
 	wakeSignal struct {
 		ready chan struct{}
 
+		// the list whose push raised the signal ("" until then)
+		wokenFor string
+
 		// objects that will raise the signal if written to
 		objectsHead *signalListTuple
 		objectsTail *signalListTuple
@@ -199,6 +202,7 @@ func (wt *waitTable) unblock(name string, elements int) {
 			}
 			ws := ref.signal
 			wt.unlinkWakeSignal(ws)
+			ws.wokenFor = name
 			ws.ready <- struct{}{}
 		}
 	}
